@@ -652,6 +652,11 @@ def translate_function(f, tid=None, seq=False, opts=None):
                             msg = re.sub(r'[^A-Za-z0-9_ <>=!&|()\[\].+*/-]', '?', msg)[:80]
                     except Exception: pass
                     out.append('  __CPROVER_assert(0, "VERIF real-code assert failed: %s"); __CPROVER_assume(0);' % msg); continue
+                if callee.kind == 'global' and SPECIAL.get(callee.v) in ('lock', 'unlock') and not seq:
+                    # inside an atomic plain function (initialisation): no scheduling
+                    out.append('  %s->f0 = %d;' % (e.cval(args[0]), 1 if SPECIAL.get(callee.v) == 'lock' else 0))
+                    if dst: e.reg(dst, rty); out.append('  %s = 0;' % e.reg(dst))
+                    continue
                 if callee.kind == 'global' and SPECIAL.get(callee.v) == 'lock':
                     k = e.nvis; e.nvis += 1; e.resume.append((k, '%sV_%d' % (e.pfx, k)))
                     out.append('  if (cs == %d && !TH[%d].held) { TH[%d].pc = %d; return; } %sV_%d: if (%s->f0 != 0) { TH[%d].pc = %d; TH[%d].blocked = 1; return; } TH[%d].blocked = 0; %s->f0 = 1; TH[%d].held++;' % (k, tid, tid, k, e.pfx, k, e.cval(args[0]), tid, k, tid, tid, e.cval(args[0]), tid))
